@@ -213,7 +213,10 @@ class World(object):
         if broken:
             names = names + ["zz"]
         consts = {"kattr": 7 + self.kver}
-        kw = dict(fn_args=self.names, var_dims=dims, constants=consts, attrs={"note": "hello"})
+        attrs = {"note": "hello"}
+        if self.variant.get("bool_attrs"):
+            attrs.update(flag=True, nothing=None)       # (saved as strings by netCDF engines; the returned data keeps them)
+        kw = dict(fn_args=self.names, var_dims=dims, constants=consts, attrs=attrs)
         if self.rsc:
             kw["resources"] = {"rsc": 5}
         if mode == "xv":
@@ -830,12 +833,27 @@ def do_step(w, ev):
                 elif w.farmer_kind == "harvester" and w.cfg["cause"] != "merge" and w.variant.get("overwrite_pol") is not None:
                     kw["overwrite"] = w.variant["overwrite_pol"]       # no conflicting data around: the policy must not matter
                 reaper = w.early if (getattr(w, "early", None) is not None and w.variant.get("early_handle")) else w.crop
+                stray = None
+                if w.variant.get("stray_tmp") and allow and os.path.isdir(os.path.join(w.crop.location, "results")):
+                    # what a grower killed while publishing leaves behind: a partly written temporary file next to the results
+                    missing = [i for i in range(1, w.case["nb"] + 1)
+                               if not os.path.exists(os.path.join(w.crop.location, "results", "xyz-result-%d.jbdmp" % i))]
+                    if missing:
+                        import uuid as _uuid
+                        stray = os.path.join(w.crop.location, "results", "xyz-result-%d.jbdmp.%d-%s.tmp" % (
+                            missing[0], 4242, _uuid.uuid4().hex))
+                        with open(stray, "wb") as fh:
+                            fh.write(b"\x80\x05\x95\x10\x00\x00")          # the first bytes of a pickle, nothing more
                 if w.variant.get("reap_wait") and ev["post"]["outcome"] == "complete":
                     # every result is there: waiting for results must not change anything
                     rdir = os.path.join(w.crop.location, "results")
                     if all(os.path.isfile(os.path.join(rdir, "xyz-result-%d.jbdmp" % i)) for i in range(1, w.case["nb"] + 1)):
                         kw["wait"] = True
-                ret = reaper.reap(**kw)
+                try:
+                    ret = reaper.reap(**kw)
+                finally:
+                    if stray is not None and os.path.exists(stray):
+                        os.remove(stray)
             else:
                 raise RuntimeError("unknown action %r" % a)
     except Exception as e:  # noqa
@@ -857,6 +875,14 @@ def setup_cause(w):
             data["y"] = (tuple(w.names), np.full([1] * len(w.names), -10.0))
         ds = xr.Dataset(data, coords=coords)
         w.xyz.save_ds(ds, w.data_name, engine=w.engine)
+
+
+_CLAIMS = [None]        # set by drive() before the (forked) workers start
+
+
+def _claimed(tag):
+    c = _CLAIMS[0]
+    return c is None or bool(c(tag))
 
 
 def replay_case(case, variant):
@@ -931,8 +957,13 @@ def replay_case(case, variant):
                     notes.append("model_drift (after batch-order drift): " + prob)
                     return None, None, k, notes
                 if prob:
-                    return ("after step %d %s%r: %s" % (k, ev["a"], tuple(ev["args"]), prob),
-                            ("dir_" if "directory" in prob else "obs_") + ev["a"], k, notes)
+                    tag_ = ("dir_" if "directory" in prob else "obs_") + ev["a"]
+                    if not _claimed(tag_) and "directory" not in prob:
+                        # an observation this property does not speak about (the owning check reports it): go on,
+                        # what this property does speak about may still be decided further down the history
+                        notes.append("off-property observation mismatch (%s): %s" % (tag_, prob[:160]))
+                    else:
+                        return ("after step %d %s%r: %s" % (k, ev["a"], tuple(ev["args"]), prob), tag_, k, notes)
                 if ev["a"] in ("sow", "resow", "reload") and post["dir"] == "present":
                     got = read_batches(w)
                     want_b = [list(b) for b in case["batch"]]
@@ -940,7 +971,10 @@ def replay_case(case, variant):
                         flat = sorted(i for b in got for i in b)
                         partition_ok = ([len(b) for b in got] == [len(b) for b in want_b]
                                         and flat == list(range(1, case["n"] + 1)))
-                        if not partition_ok:
+                        if not partition_ok and not _claimed("batches"):
+                            notes.append("off-property mismatch (batches): batch files hold %r, model says %r" % (got, case["batch"]))
+                            drifted = True
+                        elif not partition_ok:
                             return ("after %s: batch files hold %r, model says %r" % (ev["a"], got, case["batch"]),
                                     "batches", k, notes)
                         # same partition, other order of the settings: not a violation in itself (the
@@ -952,6 +986,9 @@ def replay_case(case, variant):
                     c = w.crop
                     if ev["a"] == "reload" and w.unsynced:
                         pass          # a handle told not to load what is on disk does not know the numbers yet
+                    elif (c.num_batches, c.batchsize) != (case["nb"], case["bsz"]) and not _claimed("numbers"):
+                        notes.append("off-property mismatch (numbers): num_batches=%r batchsize=%r, model %r / %r" % (
+                            c.num_batches, c.batchsize, case["nb"], case["bsz"]))
                     elif (c.num_batches, c.batchsize) != (case["nb"], case["bsz"]):
                         return ("after %s: crop reports num_batches=%r batchsize=%r, model says %r / %r" % (
                             ev["a"], c.num_batches, c.batchsize, case["nb"], case["bsz"]), "numbers", k, notes)
@@ -979,7 +1016,8 @@ def default_variants(case, idx):
              np_values=(k % 5 == 2), reload_ctor_args=(k % 2 == 1), early_handle=(k % 3 == 0), memory_only=(k % 4 == 3),
              resources=(k % 3 != 1), path_words=(k % 4 == 1), no_autoload=(k % 4 in (1, 3)), observer_fresh=(k % 4 in (0, 1)),
              bare_case_dict=(k % 2 == 0), cases_combos_rev=(k % 4 == 2), early_resow=(k % 6 == 0),
-             ids_spelling=["tuple", "gen", "list", "iter", "tuple"][k % 5], reap_wait=(k % 3 == 0), sibling=(k % 2 == 1), rel_data=(k % 4 == 2))
+             ids_spelling=["tuple", "gen", "list", "iter", "tuple"][k % 5], reap_wait=(k % 3 == 0), sibling=(k % 2 == 1), rel_data=(k % 4 == 2),
+             bool_attrs=(k % 3 == 1), stray_tmp=(k % 2 == 0))
     if cfg["farmer"] == "none":
         v["result"] = ["scalar", "xy", "array", "str", "bool"][k % 5]
     else:
@@ -1037,6 +1075,7 @@ def drive(rep, runs, claims=None, variants=default_variants):
         for c in cases:
             jobs.append((c, variants(c, idx)))
             idx += 1
+    _CLAIMS[0] = claims
     results = common.pmap(_job, jobs)
     off = 0
     harness = []
@@ -1067,16 +1106,17 @@ def drive(rep, runs, claims=None, variants=default_variants):
 
 
 def replay_saved(rep, saved, claims=None):
+    _CLAIMS[0] = claims
     prob, tag, step, notes = replay_case(saved["case"], saved["variant"])
     for n in notes:
         print("note:", n)
-    if prob:
+    if prob and (claims is None or claims(tag)):
         rep.add_violation(saved, prob, key=case_key(saved["case"], tag))
 
 
 # -- growing with a pool of worker processes (grow(i, num_workers=k)) ---------------------------------
 
-def parallel_grow_cases(rep, count=1):
+def parallel_grow_cases(rep, count=1, partial=False):
     """Crop.tla's Grow(i) stores the batch's results in the order the batch was sown whatever the order in which the
     workers finish: batches of 3 whose first setting is the slowest are grown with num_workers=2 (real loky processes)."""
     import time
@@ -1094,17 +1134,29 @@ def parallel_grow_cases(rep, count=1):
             crop.sow_combos({"a": list(range(1, n + 1))}, verbosity=0)
             sink = io.StringIO()
             with contextlib.redirect_stdout(sink), contextlib.redirect_stderr(sink):
-                if t % 2 == 0:
+                if partial:
+                    # C09: only the second batch is grown (by a pool of workers), then a partial reap
+                    xyz.grow(2, crop=xyz.Crop(name="pg", parent_dir=tmp), num_workers=2, verbosity=0)
+                elif t % 2 == 0:
                     for b in (2, 1):
                         xyz.grow(b, crop=xyz.Crop(name="pg", parent_dir=tmp), num_workers=2, verbosity=0)
                 else:
                     # Crop.grow_missing(num_workers=..): the batches themselves are spread over the workers
                     xyz.Crop(name="pg", parent_dir=tmp).grow_missing(num_workers=2, verbosity=0)
-                res = xyz.Crop(name="pg", parent_dir=tmp).reap()
+                res = xyz.Crop(name="pg", parent_dir=tmp).reap(allow_incomplete=True) if partial else xyz.Crop(name="pg", parent_dir=tmp).reap()
             want = tuple(float(100 * a + 3) for a in range(1, n + 1))
-            case = dict(kind="parallel_grow", n=n, batchsize=bs, num_workers=2)
-            rep.add_case(["parallel_grow", t], sample=None)
-            if tuple(res) != want:
+            case = dict(kind="parallel_grow", n=n, batchsize=bs, num_workers=2, partial=partial)
+            rep.add_case(["parallel_grow", t, partial], sample=None)
+            if partial:
+                # which settings are in batch 2 depends on the shuffle: the grown values must sit at their own positions,
+                # everything else must be the placeholder
+                got = [None if (isinstance(v, float) and math.isnan(v)) else float(v) for v in res]
+                bad = [k for k, v in enumerate(got) if v is not None and v != want[k]]
+                if bad or sum(v is not None for v in got) != bs:
+                    rep.add_violation(case, "grow(2, num_workers=2) then reap(allow_incomplete=True): %r; every finished value must be "
+                                      "at its own position (direct run %r) and exactly %d positions finished" % (tuple(res), want, bs),
+                                      key=dict(tag="reap_value_partial", kind="parallel_grow"))
+            elif tuple(res) != want:
                 rep.add_violation(case, "grow(i, num_workers=2) with a slow first setting: reap gives %r, the direct run %r" % (tuple(res), want),
                                   key=dict(tag="reap_value_complete", kind="parallel_grow"))
         finally:
